@@ -5,12 +5,17 @@ A script is a list of intents
     ['cp'] ['dp'] ['cc', n] ['dc', n]      create / delete the watched path, a child
     ['start']                               construct the ServerSet (with callbacks)
     ['deliver']                             the oldest fired watch event reaches its watcher
-    ['serve'] ['ret']                       the member read in flight is answered / returns
-    ['settle']                              deliver / serve / ret until nothing is on its way
+    ['serve'] ['ret']                       the worker's member read in flight is answered / returns
+    ['list']                                the consumer lists the members: prov.GetServers() in a greenlet of
+                                            its own (what every client does once, right after 'start')
+    ['lserve', k] ['lret', k]               the member read in flight of the k-th listing in progress is
+                                            answered / returns (the listing then reads on, or returns)
+    ['settle']                              deliver / serve / ret / lserve / lret until nothing is on its way
 Intents that are not enabled in the current state are skipped (so every sub-list of a script is
 a script).  What is recorded per executed operation is the operation with its observed label
-(which member read the worker requested next) and the canonical observation (Adapter/ServerSet
-`Obs`).  Names: child n is `member_%04d` if n < lim (passes the member filter) else `other_%04d`.
+(which member read the worker — or the listing — requested next; listings are named by their
+sequence number) and the canonical observation (Adapter/ServerSet `Obs`; it includes the members
+every listing returned).  Names: child n is `member_%04d` if n < lim (passes the member filter) else `other_%04d`.
 Content: znode n carries the Member with port 9000 + key(n), key(n) = script['keys'][n] (n itself
 beyond the list / without 'keys'); two znodes with the same key carry Members that are equal by
 `Member.__eq__` (which ignores the znode name) — a server that re-registered.  The key recorded with
@@ -20,10 +25,11 @@ from lib import vfmt
 
 PROPERTY = 'C19'
 COMPONENT = 'serverset'
-QUICK = dict(gen=2000, exhaustive_len=6)
-THOROUGH = dict(gen=30000, exhaustive_len=9)
+QUICK = dict(gen=2400, exhaustive_len=6, exhaustive_list_len=5)
+THOROUGH = dict(gen=30000, exhaustive_len=9, exhaustive_list_len=7)
 TRUSTED = ['harness/fakezk.py: ZooKeeper watch semantics (one-shot watches, events delivered in order, one at a '
-           'time; recipe reads atomic, member reads served and returned at separate instants)',
+           'time; recipe reads and the get_children of a listing atomic, member reads (the worker\'s and each listing\'s, '
+           'independently) served and returned at separate instants)',
            'kazoo 2.11 DataWatch/ChildrenWatch recipes run unmodified; their behaviour is part of the model '
            '(Model/ServerSet.lean dataDeliver/childDeliver) and is compared on every run']
 ASSUMPTIONS = ['the data of a znode name never changes (a name that is re-created carries the same Member)',
@@ -32,14 +38,20 @@ ASSUMPTIONS = ['the data of a znode name never changes (a name that is re-create
                'after that only the by-name clauses are judged (the property text does not say what a consumer '
                'that goes by Member equality should hold then)',
                'member data is well-formed JSON (member_factory does not raise)',
-               'no session loss / reconnect; ServerSet.stop() and get_members() are not exercised',
+               'no session loss / reconnect; ServerSet.stop() is not exercised',
+               'quiet (where the consumer must hold exactly the members present) = no scheduler step is enabled: no fired '
+               'watch event undelivered, no member read in flight, no listing in progress — judged from the fake '
+               'ensemble and the listing greenlets only, so a worker that is stuck is judged, not waited for',
+               'the members a listing returns are compared with the model (exact prediction) but not judged by the '
+               'specification: the property text speaks of the notification stream only',
                'recipe reads (get/exists/get_children on the watched path) are answered at once; only member reads '
                'have latency']
 RULE = ('scripts drawn from the seeded generator and the word enumerator; distinct = distinct (cfg, op list with labels); non-trivial = '
         'reaches at least one of: a member read that misses, parent deletion with members, re-creation of a name, a '
         'raising callback, a read in flight across a parent deletion, two registered child watches, two queued '
         'updates, a path operation the DataWatch has not been told about, one update that removes a znode and '
-        'adds another with an equal Member, two znodes with equal Members present together')
+        'adds another with an equal Member, two znodes with equal Members present together, the worker held back by '
+        'a listing and released when the last one returns, overlapping listings, a listing whose read misses')
 
 
 def cname(n, lim):
@@ -75,6 +87,25 @@ def gen_script(rng, tier):
     rl = sorted(n for n in range(lim) if rng.random() < p_raise)
     length = rng.choice([8, 15, 25, 40] if tier == 'quick' else [10, 20, 40, 80, 120])
     eager = rng.choice([0.2, 0.5, 0.8])           # how promptly the schedule moves
+    # listings by the consumer: most clients list once right after 'start' (LoadBalancerSink does); some scripts
+    # list again and again, also while earlier listings are still reading
+    p_first = rng.choice([0.0, 0.6, 0.9, 0.9, 1.0])
+    p_list = rng.choice([0.0, 0.0, 0.04, 0.1, 0.25])
+
+    def sched():
+        r = rng.random()
+        if r < 0.45:
+            return [rng.choice(['deliver', 'deliver', 'serve', 'ret', 'ret'])]
+        k = rng.choice([0, 0, 0, 1, 1, 2])
+        return [rng.choice(['lserve', 'lret', 'lret']), k]
+
+    def start_ops():
+        out = [['start']]
+        if rng.random() < p_first:
+            out.append(['list'])
+            if rng.random() < 0.15:
+                out.append(['list'])
+        return out
     ops = []
     parent, kids, started = False, set(), False
     # initial tree before the client exists
@@ -86,17 +117,19 @@ def gen_script(rng, tier):
                 ops.append(['cc', n])
                 kids.add(n)
     if rng.random() < 0.9:
-        ops.append(['start'])
+        ops += start_ops()
         started = True
     while len(ops) < length:
         r = rng.random()
         if r < eager * 0.5:
-            ops.append([rng.choice(['deliver', 'deliver', 'serve', 'ret', 'ret'])])
+            ops.append(sched() if p_first + p_list > 0 else [rng.choice(['deliver', 'deliver', 'serve', 'ret', 'ret'])])
         elif r < eager * 0.5 + 0.08:
             ops.append(['settle'])
         elif not started and rng.random() < 0.3:
-            ops.append(['start'])
+            ops += start_ops()
             started = True
+        elif started and rng.random() < p_list:
+            ops.append(['list'])
         elif not parent:
             if rng.random() < 0.6:
                 ops.append(['cp'])
@@ -174,6 +207,11 @@ EXH_PREFIXES = [
     [['cp'], ['start'], ['settle']],                # watching an empty path
 ]
 EXH_ALPHABET = [['dp'], ['cp'], ['cc', 0], ['dc', 0], ['cc', 1], ['deliver'], ['serve'], ['ret']]
+EXH_LIST_PREFIXES = [
+    [['cp'], ['cc', 0], ['start'], ['list']],       # the worker's and the listing's first reads are in flight
+]
+EXH_LIST_ALPHABET = [['cc', 1], ['dc', 0], ['deliver'], ['serve'], ['ret'], ['list'], ['lserve', 0], ['lret', 0],
+                     ['lserve', 1], ['lret', 1]]
 
 
 def exhaustive(tier, shard, shards):
@@ -189,10 +227,10 @@ def exhaustive(tier, shard, shards):
     def enabled(ops):
         return run_script(dict(base, ops=ops))['enabled'][-1]
 
-    def walk(prefix, word, depth):
-        for a in EXH_ALPHABET:
+    def walk(prefix, word, depth, alphabet):
+        for a in alphabet:
             w = word + [a]
-            if len(w) == 2 and (EXH_ALPHABET.index(w[0]) * len(EXH_ALPHABET) + EXH_ALPHABET.index(w[1])) % shards != shard:
+            if len(w) == 2 and (alphabet.index(w[0]) * len(alphabet) + alphabet.index(w[1])) % shards != shard:
                 continue
             if not enabled(prefix + w):
                 continue
@@ -201,11 +239,17 @@ def exhaustive(tier, shard, shards):
                 if ['cc', 1] in w:
                     yield dict(twin, ops=prefix + w + [['settle']])
             if depth > 1:
-                for x in walk(prefix, w, depth - 1):
+                for x in walk(prefix, w, depth - 1, alphabet):
                     yield x
 
     for prefix in EXH_PREFIXES:
-        for x in walk(prefix, [], n):
+        for x in walk(prefix, [], n, EXH_ALPHABET):
+            yield x
+    # the same with a listing by the consumer begun right after construction (what every client does), further
+    # listings, and the listings' reads stepped on their own
+    nl = (THOROUGH if tier == 'thorough' else QUICK)['exhaustive_list_len']
+    for prefix in EXH_LIST_PREFIXES:
+        for x in walk(prefix, [], nl, EXH_LIST_ALPHABET):
             yield x
 
 
@@ -222,7 +266,7 @@ def shrink(script):
             yield s
     for i, op in enumerate(ops):
         if op[0] == 'settle':
-            for rep in (['deliver'], ['serve'], ['ret']):
+            for rep in (['deliver'], ['serve'], ['ret'], ['lserve', 0], ['lret', 0]):
                 s = dict(script)
                 s['ops'] = ops[:i] + [rep] + ops[i:]
                 yield s
@@ -237,11 +281,15 @@ def run_script(script):
     lim, rj, rl = script['lim'], set(script.get('rj', [])), set(script.get('rl', []))
     keys = list(script.get('keys') or [])
     key = lambda n: keyof(script, n)
+    import gevent
     zk = FakeZk('/svc')
     zk.start()
     box = {'ss': None, 'notes': [], 'mkeys': [], 'errs': 0}
     steps, tags, enabled = [], set(), []
     joined_once = set()
+    # listings by the consumer: {'id', 'g' (the greenlet running prov.GetServers())}, in start order
+    listings, done = [], []
+    zk.owner_of = lambda g: next((l['id'] for l in listings if l['g'] is g), None)
 
     def on_join(m):
         n = cid(m.name)
@@ -265,13 +313,24 @@ def run_script(script):
             tags.add('raise')
             raise ValueError('on_leave %d' % n)
 
-    def reading():
-        r = zk.read
+    def reading(owner='w'):
+        r = zk.reads.get(owner)
         if r is None:
             return None
         if r['phase'] == 'requested':
             return ['req', cid(r['name'])]
         return ['srv', cid(r['name']), r['data'] is not None]
+
+    def reap():
+        """listings that have returned: their result joins the observation"""
+        for l in list(listings):
+            if l['g'].ready():
+                listings.remove(l)
+                if l['g'].successful():
+                    done.append([l['id'], [cid(m.name) for m in l['g'].value]])
+                else:
+                    tags.add('listing-raised-' + type(l['g'].exception).__name__)
+                    done.append([l['id'], [999999]])
 
     def observe():
         ss = box['ss']
@@ -285,11 +344,19 @@ def run_script(script):
         if hub:
             tags.add('uncaught-' + hub[0][0])
         if ss is None:
-            return [False, notes, mkeys, errs, False, [], [], 0, False, [], False, 0, None, len(hub)]
-        quiet = (not zk.pending) and ss._notification_queue.empty() and zk.read is None
+            return [False, notes, mkeys, errs, False, [], [], 0, False, [], False, 0, None, len(hub), 0, True, [], []]
+        reap()
+        # nothing is on its way, judged from the outside (the fake ensemble and the listing greenlets): no scheduler
+        # step is enabled.  Nothing of the ServerSet's own state enters, so a worker that is stuck is judged too.
+        quiet = (not zk.pending) and (not zk.reads) and (not listings)
+        blk = ss._cb_blocker
+        if blk.event.linkcount() > 0:
+            tags.add('worker-held')
         return [False, notes, mkeys, errs, quiet, sorted(cid(x) for x in ss._nodes), [cid(x) for x in ss._members],
                 ss._notification_queue.qsize(), bool(ss._watching), [('d' if k == 'data' else 'c') for k, _, _ in zk.pending],
-                bool(zk.data_watch), len(zk.child_watch), reading(), len(hub)]
+                bool(zk.data_watch), len(zk.child_watch), reading(), len(hub),
+                blk._count, blk.event.is_set(), [[l['id'], reading(l['id'])] for l in listings],
+                [list(d) for d in done]]
 
     def do(op):
         """op: intent; returns False if not enabled"""
@@ -297,6 +364,7 @@ def run_script(script):
         ss = box['ss']
         nreq = len(zk.requested)
         labelled = False
+        by = 'w'          # whose next read the label names
         if k in ('cp', 'dp'):
             if (k == 'cp') != (zk.parent is None) or (k == 'dp' and zk.kids):
                 return False
@@ -359,13 +427,47 @@ def run_script(script):
                 return False
             zk.t_return()
             text, labelled = 'ret', True
+        elif k == 'list':
+            if ss is None:
+                return False
+            # the consumer lists the members through the real provider, in a greenlet of its own
+            lid = box.get('lgen', 0)
+            box['lgen'] = lid + 1
+            if listings:
+                tags.add('list-overlap')
+            if zk.read is not None:
+                tags.add('list-during-update')
+            tags.add('list')
+            l = {'id': lid, 'g': None}
+            listings.append(l)
+            l['g'] = gevent.spawn(box['prov'].GetServers)
+            text, labelled, by = 'list', True, lid
+        elif k in ('lserve', 'lret'):
+            if op[1] >= len(listings):
+                return False
+            lid = listings[op[1]]['id']
+            r = zk.reads.get(lid)
+            if r is None or r['phase'] != ('requested' if k == 'lserve' else 'served'):
+                return False
+            if k == 'lserve':
+                zk.t_serve(lid)
+                if r['data'] is None:
+                    tags.add('list-miss')
+                text = 'lserve %d' % lid
+            else:
+                held = ss._cb_blocker.event.linkcount() > 0
+                zk.t_return(lid)
+                text, labelled, by = 'lret %d' % lid, True, None      # the listing's next read, or the worker's
         else:
             raise ValueError(op)
         rt.drain()
         if labelled:
-            nxt = cid(zk.requested[-1]) if len(zk.requested) > nreq else None
+            new = [(o, n) for o, n in zip(zk.requested_by[nreq:], zk.requested[nreq:]) if by is None or o == by]
+            nxt = cid(new[0][1]) if new else None
             text += ' ' + vfmt(nxt)
         obs = observe()
+        if k == 'lret' and held and not ss._cb_blocker.event.linkcount() and not listings:
+            tags.add('worker-released')
         if obs[11] >= 2:
             tags.add('two-child-watches')
         if obs[7] >= 2:
@@ -377,6 +479,8 @@ def run_script(script):
         for _ in range(10000):
             if zk.read is not None:
                 do(['serve'] if zk.read['phase'] == 'requested' else ['ret'])
+            elif listings and zk.reads.get(listings[0]['id']) is not None:
+                do(['lserve' if zk.reads[listings[0]['id']]['phase'] == 'requested' else 'lret', 0])
             elif zk.pending and box['ss'] is not None:
                 do(['deliver'])
             else:
@@ -391,9 +495,11 @@ def run_script(script):
             enabled.append(do(op))
     if steps and box['ss'] is not None:
         last = steps[-1][1]
-        tags.add('ends-quiet' if (not zk.pending and zk.read is None) else 'ends-busy')
+        tags.add('ends-quiet' if (not zk.pending and not zk.reads and not listings) else 'ends-busy')
     if box['ss'] is not None:
         box['ss'].stop()
+        for l in listings:
+            l['g'].kill(block=False)
         rt.drain()
         rt.take_errors()
     cfg = vfmt([lim, sorted(rj), sorted(rl)] + ([keys] if keys else []))[1:-1]
@@ -404,4 +510,5 @@ def nontrivial(case):
     t = set(case.get('tags', []))
     return bool(t & {'miss', 'parent-deleted-with-members', 'rejoin', 'raise', 'inflight-at-parent-delete',
                      'two-child-watches', 'queue-2', 'parent-recreated', 'parent-op-unobserved',
-                     'restart-in-one-update', 'equal-members-together'})
+                     'restart-in-one-update', 'equal-members-together', 'worker-held', 'worker-released',
+                     'list-overlap', 'list-miss', 'list-during-update'})
